@@ -819,7 +819,10 @@ void Lexer::yyinput_CORE(const char*& yy,
 
 void Lexer::yyinput()
 {
+    bool atNewline = yychar_ == '\n';
     yyinput_CORE(yytext_, yychar_, yycolumn_, offset_);
+    if (atNewline)
+        yycolumn_ = 1; // The column of the first character of the next line is 0.
 
     if (UNLIKELY(yychar_ == '\n')) {
         ++yylineno_;
